@@ -262,28 +262,44 @@ def r5(F, R):
         for fb in fam:
             if fb.is_coroutine or not any(callee_is(t, r"Iterator::next$") and "Rev<" in (op_fn(t["func"]) or {}).get("self", "") for _, t in fb.calls()):
                 continue
-            dp = D.Deep(F, fb, inline=False, max_paths=400)
+            rev_sites = [s_ for s_, t in fb.calls(lambda t: callee_is(t, r"Iterator::next$") and "Rev<" in (op_fn(t["func"]) or {}).get("self", ""))]
+            rev_bbs = {s_.bb for s_ in rev_sites}
+            search_loop = set().union(*[set(A.natural_loop(fb, s_.bb)) for s_ in rev_sites])
+            returns_option = fb.locals[0].startswith("std::option::Option<")
+            dp = D.Deep(F, fb, inline=False, max_paths=2000)
             for p in dp.run():
-                nx = [("call", e[1], e[2], e[4]) for e in p.effects if e[0] == "call" and re.search(r"Iterator::next$", e[1])]
+                # (only the `next()` of the reversed search counts: the routine may loop over the events again further down)
+                nx = [("call", e[1], e[2], e[4]) for e in p.effects if e[0] == "call" and re.search(r"Iterator::next$", e[1]) and e[3][1] in rev_bbs]
                 if not nx:
                     continue
                 d = shape(dp, p, lambda t: D.mentions(t, lambda x: x == nx[-1]))
                 if not d:
                     continue
                 n_sel += 1
-                if p.cut and not harmless(d):
+                went_round = (p.cut or (isinstance(p.ret, tuple) and p.ret and p.ret[0] == "loop")) and isinstance(p.ret, tuple) and len(p.ret) == 3 and p.ret[2] in search_loop
+                if went_round and not harmless(d):
                     skipped_failed.append(d)
-                if not p.cut and D.is_variant(p.ret, "std::option::Option", "None"):
+                if returns_option and not p.cut and D.is_variant(p.ret, "std::option::Option", "None"):
                     skipped_failed.append({"?": "an examined event ends the search with None"})
     R.check(n_sel >= 4 and not skipped_failed, "junit/outcome-event-selection", sel[0] if sel else b, "only Log and non-failing After-hook events are skipped",
             f"JUnit skips {skipped_failed[:2]} when choosing the event that decides a test case's result: that failure is reported as success")
+    # (event deciding the outcome -> kind of test case), on the routine's deep table cut at the TestCaseBuilder constructions: the shape is what
+    # the row learned LAST about an event (the scrutinee of the final match — an earlier search loop may have looked at other events)
     table = {}
-    for p in A.enumerate_paths(b, max_paths=4000):
-        d = dec(p)
-        kinds = tuple(sorted({callee_path(t).rsplit("::", 1)[-1] for s, t in p.calls() if "TestCaseBuilder" in (callee_path(t) or "") and not callee_path(t).endswith("::build")}))
-        key = (d.get("Scenario"), d.get("Step") or d.get("Hook"))
-        if key[0]:
-            table.setdefault(key, set()).add(kinds)
+    builders = {s_.bb: callee_path(t).rsplit("::", 1)[-1] for s_, t in b.calls(lambda t: "TestCaseBuilder" in (callee_path(t) or "") and not callee_path(t).endswith("::build"))}
+    dpt = D.Deep(F, b, inline=False, max_paths=6000)
+    dpt.stop_term = frozenset(builders)
+    for p in dpt.run():
+        if not (isinstance(p.ret, tuple) and p.ret and p.ret[0] == "reached"):
+            continue
+        sc_conds = [(a, o) for a, o in p.conds if a[0] == "discr" and isinstance(o, str) and dpt.adt_of.get(a, "") == "event::Scenario"]
+        if not sc_conds:
+            continue
+        scrut, sc_v = sc_conds[-1]
+        sub = [o for a, o in p.conds if a[0] == "discr" and isinstance(o, str) and dpt.adt_of.get(a, "") in ("event::Step", "event::Hook") and D.mentions(a[1], lambda x: x == scrut[1])]
+        for k1 in sc_v.split("|"):
+            for s1 in (sub[-1].split("|") if sub else [None]):
+                table.setdefault((k1, s1), set()).add((builders[p.ret[1]],))
     bad = []
     for (sc, v), ks in table.items():
         want = ("failure",) if v == "Failed" else (("skipped",) if v == "Skipped" else ("success",))
